@@ -15,6 +15,7 @@ from mir_eval import (alignment, beat, chord, hierarchy, key, melody, multipitch
 from checks.c01 import KINDS
 
 PROPERTY_ID = "C03"
+SCALE = (2, 2)   # budget multiplier (quick, thorough) applied to the n=(...) of every generated sub-property
 LEVEL = "exploration"
 RULE = ("for each of the 13 tasks: valid inputs incl. empty sides, a random subset of the keyword parameters of the underlying metric functions "
         "(in-range values) and optionally one unrelated keyword; evaluate() is compared entry by entry with direct calls of the public metric "
